@@ -10,10 +10,43 @@ WT = "/root/scratch/seed-wt"
 def sh(*a, cwd=None, timeout=900):
     return subprocess.run(a, capture_output=True, text=True, env=ENV, cwd=cwd, timeout=timeout)
 
+def apply_patch(dst, wt, meta):
+    """git apply; then the rebased variant; then with reduced context; then patch(1) with fuzz (later fixes moved lines)."""
+    ap = sh("git", "apply", f"{dst}/patch.diff", cwd=wt)
+    if ap.returncode == 0:
+        return ap
+    if os.path.exists(f"{dst}/patch.rebased.diff"):
+        ap2 = sh("git", "apply", f"{dst}/patch.rebased.diff", cwd=wt)
+        if ap2.returncode == 0:
+            meta["rebased"] = True
+            return ap2
+    ap3 = sh("git", "apply", "-C1", f"{dst}/patch.diff", cwd=wt)
+    if ap3.returncode == 0:
+        meta["applied_with"] = "git apply -C1 (reduced context: later fixes moved the surrounding lines)"
+        return ap3
+    sh("git", "checkout", "--", ".", cwd=wt)
+    ap4 = sh("patch", "-p1", "--fuzz=3", "--no-backup-if-mismatch", "-i", f"{dst}/patch.diff", cwd=wt)
+    if ap4.returncode == 0:
+        meta["applied_with"] = "patch -p1 --fuzz=3 (later fixes moved the surrounding lines)"
+        for f in glob.glob(wt + "/larking/*.orig") + glob.glob(wt + "/larking/*.rej"):
+            os.remove(f)
+        return ap4
+    sh("git", "checkout", "--", ".", cwd=wt)
+    return ap
+
 def main():
+    global WT
     only = [a for a in sys.argv[1:] if not a.startswith("--")]
+    shard = None
+    for a in sys.argv[1:]:
+        if a.startswith("--shard="):
+            i, n = a[len("--shard="):].split("/")
+            shard = (int(i), int(n))
+            WT = WT + f"-{i}of{n}"
     os.makedirs("/root/scratch", exist_ok=True)
-    for dst in sorted(glob.glob("/verif/seeded/C*-*")):
+    for k, dst in enumerate(sorted(glob.glob("/verif/seeded/C*-*"))):
+        if shard and k % shard[1] != shard[0]:
+            continue
         if not os.path.exists(dst + "/patch.diff"):
             continue
         name = os.path.basename(dst)
@@ -23,14 +56,11 @@ def main():
         if "--new" in sys.argv and os.path.exists(f"{dst}/meta.json") and json.load(open(f"{dst}/meta.json")).get("confirmed"):
             continue
         old_meta = json.load(open(f"{dst}/meta.json")) if os.path.exists(f"{dst}/meta.json") else {}
-        meta = {"official_check": old_meta.get("official_check"), "id": name, "property": pid, "source": "independent sub-agent given only the property text and a scratch worktree"}
+        meta = {"official_check": old_meta.get("official_check"), "obsolete": old_meta.get("obsolete"), "id": name, "property": pid, "source": "independent sub-agent given only the property text and a scratch worktree"}
         sh("git", "-C", "/repo", "worktree", "remove", "--force", WT)
         r = sh("git", "-C", "/repo", "worktree", "add", "--detach", WT, "HEAD")
         try:
-            ap = sh("git", "apply", f"{dst}/patch.diff", cwd=WT)
-            if ap.returncode != 0 and os.path.exists(f"{dst}/patch.rebased.diff"):
-                ap = sh("git", "apply", f"{dst}/patch.rebased.diff", cwd=WT)
-                meta["rebased"] = True
+            ap = apply_patch(dst, WT, meta)
             meta["applies_to_head"] = ap.returncode == 0
             if ap.returncode != 0:
                 meta["apply_error"] = ap.stderr[-500:]
@@ -48,7 +78,7 @@ def main():
             meta["demo_fails_with_change"] = dm.returncode != 0
             # run the property's check on the changed tree (scratch worktree as -repo, scratch output dir)
             os.remove(f"{WT}/larking/zz_seed_demo_test.go")
-            OUT = "/root/scratch/seed-out"
+            OUT = WT + "-out"
             shutil.rmtree(OUT, ignore_errors=True)
             os.makedirs(OUT + "/contracts", exist_ok=True)
             for f in os.listdir("/verif/contracts"):
